@@ -759,6 +759,22 @@ func TestVerifC05(t *testing.T) {
 		w.u2fFinish(sa, users, a.Name, a.Name, false, "expired-challenge")
 		rep.Count("expired_challenge_checked", 1)
 	})
+	// S2b: a push that is answered with anything but "approved" (denied on the device, expired, timed out, service
+	// error, an unknown or empty status) never raises the session, however often it is polled
+	scenario("vip-push-not-approved", func() {
+		for i, status := range []string{"7002", "7003", "7004", "7006", "7005", "7010", "0000", "", "approved", "7000 "} {
+			u := w.newUser(fmt.Sprintf("s2b%d", i), true)
+			s := &c05Session{}
+			w.login(s, u, true)
+			w.pushStart(s, s)
+			n := w.vip.AnswerOnDevice(u.Name, status)
+			w.log("answerOnDevice(%s,status=%q)=%d", u.Name, status, n)
+			for k := 0; k < 3; k++ {
+				w.poll(s, s, "push-answered-"+status)
+			}
+			rep.Count("not_approved_pushes_polled", n)
+		}
+	})
 	// S4b: an expired challenge of one hardware-token ceremony must stay dead when the same user starts the other kind of
 	// ceremony afterwards (both ceremonies keep their pending challenge in one per-user record); same real wait
 	scenario("expired-challenge-other-ceremony", func() {
@@ -950,7 +966,7 @@ func TestVerifC05(t *testing.T) {
 	// ---- seeded random walks ---------------------------------------------------
 	nPairs, steps := 4, 500
 	if verifThorough() {
-		nPairs, steps = 24, 3000
+		nPairs, steps = 16, 3000
 	}
 	for pi := 0; pi < nPairs; pi++ {
 		pi := pi
@@ -1032,9 +1048,10 @@ func TestVerifC05(t *testing.T) {
 	rep.Floor("webauthn_honoured", 1)
 	rep.Floor("expired_challenge_checked", 1)
 	rep.Floor("totp_replay_next_step_checked", 1)
-	rep.Floor("scenarios_completed", 11+nPairs)
+	rep.Floor("scenarios_completed", 12+nPairs)
 	rep.Floor("slow_read_scenarios", 1)
 	rep.Floor("mixed_credential_requests", 2)
+	rep.Floor("not_approved_pushes_polled", 8)
 	rep.Floor("two_cookie_requests", 6)
 	rep.Floor("storage_fault_scenarios", 1)
 	rep.Assume("Okta OTP/push level upgrades are exercised in C17's Okta deployment for redirects only; the push service, directory-less password backend and hardware tokens are local fakes / soft tokens")
